@@ -4,6 +4,7 @@ import NdnProofs.Lemmas.Lvs.Sem
 import NdnProofs.Lemmas.Lvs.Example
 import NdnProofs.Lemmas.Lvs.CompileStatic
 import NdnProofs.Lemmas.Lvs.CompileExample
+import NdnProofs.Lemmas.Lvs.CompileComplete
 /-!
 # C13 — ill-formed models are rejected; every query on an accepted model terminates
 
@@ -14,8 +15,10 @@ docs/src/lvs/binary-format.rst "Sanity Check" over the nodes reachable from the 
 
 The compiler is modelled too (`NdnModel/Lvs/{Ast,Compile}.lean`: `Ndn.Lvs.compile`, the passes of
 `compiler.py` as written, tied to the real `compile_lvs` on every run by comparing the node pools):
-the schema-level half of the property is proved for it as far as the theorems `compile_rejects_*`,
-`compile_sane`, `compile_accepted_iff` below say; see `compile_sane_partial` for what is left.
+the schema-level half of the property is proved for it: `compile_ok_iff_static` (it raises, and then
+`SemanticError`, exactly on the schemas with a static error), `compile_rejects_*` (each kind of static error),
+`compile_sane` / `compile_accepted_iff` (what it emits is accepted by the loader iff there is no signing
+cycle); see `compile_sane_partial` for what is left.
 -/
 namespace Ndn.C13
 open Ndn Ndn.Lvs
@@ -104,6 +107,61 @@ theorem compile_rejects_bad_constraint (S : Schema) (r : SRule) (hr : r ∈ S.ru
     compile S = .error .semantic :=
   compile_badTerm S r hr cs hcs t ht hbad
 
+/-- **compile_rejects_undefined_signer.** A signer that is not the identifier of a rule (temporary rules count
+    under their renamed identifier `#_x#k`, which no signer can spell) makes `compile` raise `SemanticError`. -/
+theorem compile_rejects_undefined_signer (S : Schema) (r : SRule) (hr : r ∈ S.rules) (s : String) (hs : s ∈ r.sign)
+    (hbad : s ∉ ruleIds (renameTemps S.rules 1)) : compile S = .error .semantic :=
+  compile_badSigner S r hr s hs hbad
+
+/-- … in particular a signer that is neither temporary nor the identifier of a rule of the schema -/
+theorem compile_rejects_unknown_signer (S : Schema) (r : SRule) (hr : r ∈ S.rules) (s : String) (hs : s ∈ r.sign)
+    (hnt : isTempRule s = false) (hbad : ∀ r' ∈ S.rules, r'.id ≠ s) : compile S = .error .semantic := by
+  apply compile_badSigner S r hr s hs
+  intro hin
+  obtain ⟨r', hr', hid⟩ := mem_ruleIds.mp hin
+  obtain ⟨r0, hr0, _, _, _, hcase⟩ := mem_renameTemps hr'
+  rcases hcase with ⟨_, he⟩ | ⟨htmp, j, he⟩
+  · exact hbad r0 hr0 (he ▸ hid)
+  · have : isTempRule s = true := by
+      rw [← hid, he, String.append_assoc]
+      exact isTempRule_append _ _ htmp
+    rw [hnt] at this
+    simp at this
+
+/-- **compile_only_semantic_errors.** Whatever the schema, the only exception the compiler model raises is
+    `SemanticError`: `rep_rules[comp.id]` never raises `KeyError` (after the topological sort references point
+    backwards) and the recursion of `_generate_node` is bounded by the longest name pattern. -/
+theorem compile_only_semantic_errors (S : Schema) (e : CErr) (h : compile S = .error e) : e = .semantic :=
+  compile_error_semantic S e h
+
+/-- **compile_ok_iff_static.** The compiler model accepts exactly the schemas without static error (`StaticOK`:
+    every reference is to a defined non-temporary rule, references are acyclic, no constraint term is a `BadTerm`,
+    every signer is a rule) and otherwise raises `SemanticError`. -/
+theorem compile_ok_iff_static (S : Schema) :
+    ((∃ res, compile S = .ok res) ↔ StaticOK S) ∧ (compile S = .error .semantic ↔ ¬ StaticOK S) := by
+  have hfw : (∃ res, compile S = .ok res) → StaticOK S := by
+    intro ⟨res, hres⟩
+    have hne : compile S ≠ .error .semantic := by rw [hres]; simp
+    refine ⟨⟨fun r hr c hc => ?_, fun ⟨C, hC, hcy⟩ => hne (compile_refCycle S C hC hcy)⟩,
+      fun r hr cs hcs t ht hbad => hne (compile_badTerm S r hr cs hcs t ht hbad),
+      fun r hr s hs => compile_ok_signers S res hres r hr s hs⟩
+    constructor
+    · cases ht : isTempRule c with
+      | false => rfl
+      | true => exact absurd (compile_badRef S r hr c hc (Or.inl ht)) hne
+    · apply Classical.byContradiction
+      intro hn
+      exact hne (compile_badRef S r hr c hc (Or.inr (fun r' hr' he => hn ⟨r', hr', he⟩)))
+  refine ⟨⟨hfw, compile_complete S⟩, ?_, ?_⟩
+  · intro herr hst
+    obtain ⟨res, hres⟩ := compile_complete S hst
+    rw [hres] at herr
+    simp at herr
+  · intro hn
+    cases h : compile S with
+    | error e => rw [compile_error_semantic S e h]
+    | ok res => exact absurd (hfw ⟨res, h⟩) hn
+
 /-- a signing cycle among reachable nodes of a model: a non-empty set of nodes each of which is listed as
     signer by a reachable member of the set -/
 def SignCycle (m : Model) : Prop :=
@@ -150,17 +208,25 @@ theorem compile_sane (S : Schema) (hwf : S.WF) (m : Model) (syms : List String)
     (h : compile S = .ok (m, syms)) (hac : ¬ SignCycle m) : sanityCheck m = .ok () :=
   (compile_accepted_iff S hwf m syms h).1.mpr hac
 
+/-- **compile_static_sane.** The schema-level statement in one piece: a schema the parser can produce, without
+    static error, compiles, and the loader accepts the result unless its nodes sign each other in a cycle (in
+    which case it raises `SemanticError`, never `LvsModelError`). -/
+theorem compile_static_sane (S : Schema) (hwf : S.WF) (hst : StaticOK S) :
+    ∃ m syms, compile S = .ok (m, syms) ∧ Sane m ∧
+      (sanityCheck m = .ok () ↔ ¬ SignCycle m) ∧ (sanityCheck m = .error .semanticError ↔ SignCycle m) := by
+  obtain ⟨⟨m, syms⟩, h⟩ := compile_complete S hst
+  exact ⟨m, syms, h, (compile_structure_sane S hwf m syms h).1, compile_accepted_iff S hwf m syms h⟩
+
 /-- **compile_sane_partial.**  Full statement:
     `WFSchema S → no name pattern of S is its own signer → sanityCheck (compile S) = ok`, and
     `¬ WFSchema S → compile S = error SemanticError`.
-    Proved about the compiler model (above): references to undefined / temporary rules, reference cycles and
-    bad constraint terms are refused with `SemanticError` (`compile_rejects_*`); every model the compiler
-    emits is structurally sane, and it is accepted iff its nodes do not sign each other in a cycle
-    (`compile_structure_sane`, `compile_accepted_iff`, `compile_sane`).
-    Not proved: that an undefined signer is refused (pass 5), that a schema without any static error does
-    compile (no error is raised by any pass), and the reading of the node-level `SignCycle` in terms of the
-    source rules (node merging can make a name pattern its own signer although the rule-level signing
-    graph is acyclic).  These rest on the correspondence run and the schema-level oracle.
+    Proved about the compiler model (above): it raises exactly on the schemas with a static error, and then
+    `SemanticError` (`compile_ok_iff_static`, `compile_rejects_*`, `compile_only_semantic_errors`); every model
+    it emits is structurally sane, and is accepted iff its nodes do not sign each other in a cycle, else
+    `SemanticError` (`compile_structure_sane`, `compile_accepted_iff`, `compile_sane`, `compile_static_sane`).
+    Not proved: the reading of the node-level `SignCycle` in terms of the source rules ("no name pattern is
+    its own signer": node merging can make a name pattern its own signer although the rule-level signing
+    graph is acyclic).  That, and model = code, rest on the correspondence run and the schema-level oracle.
     Proved here, for *any* model: the loader accepts it exactly when it is sane and `top_order` finds no
     signing loop. -/
 theorem compile_sane_partial (m : Model) : sanityCheck m = .ok () ↔ Sane m ∧ signOK m = true := by
@@ -209,6 +275,20 @@ example : SignCycle Example.signLoop :=
   (compile_accepted_iff _ Example.schemaLoop_wf _ _ Example.compile_schemaLoop).2.mp (by
     simp only [sanityCheck, show structCheck Example.signLoop = true by decide,
       show signOK Example.signLoop = false by decide]; rfl)
+example : StaticOK Example.schema :=
+  (compile_ok_iff_static Example.schema).1.mp ⟨_, Example.compile_schema⟩
+example : ∃ m syms, compile Example.schema = .ok (m, syms) ∧ Sane m ∧
+    (sanityCheck m = .ok () ↔ ¬ SignCycle m) ∧ (sanityCheck m = .error .semanticError ↔ SignCycle m) :=
+  compile_static_sane Example.schema Example.schema_wf ((compile_ok_iff_static Example.schema).1.mp ⟨_, Example.compile_schema⟩)
+/-- `#p: "d"/x <= #nokey` -/
+example : compile Example.schemaBadSigner = .error .semantic :=
+  compile_rejects_unknown_signer _ _ List.mem_cons_self "#nokey" List.mem_cons_self (by decide) (by decide)
+example : ¬ StaticOK Example.schemaBadSigner :=
+  (compile_ok_iff_static _).2.mp
+    (compile_rejects_unknown_signer _ _ List.mem_cons_self "#nokey" List.mem_cons_self (by decide) (by decide))
+example : CErr.semantic = .semantic :=
+  compile_only_semantic_errors Example.schemaBadSigner _
+    (compile_rejects_unknown_signer _ _ List.mem_cons_self "#nokey" List.mem_cons_self (by decide) (by decide))
 /-- `#p: #nope/"d"` -/
 example : compile Example.schemaBadRef = .error .semantic :=
   compile_rejects_bad_reference _ _ List.mem_cons_self "#nope" List.mem_cons_self (Or.inr (by decide))
